@@ -1028,3 +1028,16 @@ package ctfe
 //@ ensures [handlers-and-sth-getter-of-the-log-that-was-set-up] su.res1 == nil ==> result1 == nil && result0 != nil && h.called && result0.Handlers == h.res && result0.STHGetter == after(su, su.res0.sthGetter) && result0.li == su.res0
 //@ at su assert [set-up-from-the-callers-options] su.opts == opts
 //@ at h assert [handlers-of-that-log-under-the-configured-prefix] h.li == su.res0 && h.prefix == opts.Validated.Config.Prefix
+
+// C08 / C02: get-roots serves the configured trusted roots, all of them, in pool order, as their DER
+// bytes; an encoding failure is a 500 with an error, never a 200.
+//@ func getRoots
+//@ props C08 C02
+//@ arith int
+//@ site RawCertificates#2 as rc
+//@ site Encode#1 as enc
+//@ requires li != nil && li.validationOpts.trustedRoots != nil && w != nil
+//@ loop 1 invariant len(rawCerts) == rangeindex + 1 && (forall j int :: 0 <= j && j <= rangeindex ==> rawCerts[j] == rc.res[j].Raw)
+//@ ensures [encoding-failure-is-a-500-with-an-error] enc.res != nil ==> result0 == 500 && result1 != nil
+//@ ensures [otherwise-200] enc.res == nil ==> result0 == 200 && result1 == nil
+//@ at enc assert [every-trusted-root-in-order-as-der] has(jsonMap, "certificates") && len(rawCerts) == len(rc.res) && (forall j int :: 0 <= j && j < len(rc.res) ==> rawCerts[j] == rc.res[j].Raw)
